@@ -1,7 +1,7 @@
 //! C10 — context-dependent literal widths follow the types declared earlier (shape S).
 //! Real `Parser` (fresh per history) + collecting consumer, in lock-step with the A.6 tracker model.
 use crate::golden::golden;
-use crate::model;
+use crate::model::{self, Inst};
 use crate::report::{guarded, hex, viol, Run, Tier, Viol};
 use crate::util::{parse_collect, state_name};
 use crate::xs::{self, Step};
@@ -39,6 +39,39 @@ pub enum TOp {
     SwitchLast(usize),
     /// OpUndef whose type is the most recently defined id
     UndefLast,
+    /// the k-th instruction of `preludes()`: a well-formed instruction that declares no numeric type and no value (every
+    /// OpExtension name the grammar mentions, every OpCapability, imports, a memory model): it must not change any width
+    Prelude(usize),
+}
+
+/// instructions that carry no numeric type: what a literal's width is must not depend on any of them
+pub fn preludes() -> Vec<Inst> {
+    use crate::model::Arg;
+    static P: std::sync::OnceLock<Vec<Inst>> = std::sync::OnceLock::new();
+    P.get_or_init(|| {
+        let g = golden();
+        let mut names: std::collections::BTreeSet<String> = std::collections::BTreeSet::new();
+        for i in &g.insts {
+            names.extend(i.exts.iter().cloned());
+        }
+        for m in g.exts.values() {
+            for v in m.values() {
+                names.extend(v.iter().cloned());
+            }
+        }
+        let mut out: Vec<Inst> = names.into_iter().map(|n| Inst::new("Extension", None, None, vec![Arg::Str(n)])).collect();
+        for c in g.enums["Capability"].declared() {
+            out.push(Inst::new("Capability", None, None, vec![Arg::Enum("Capability", c)]));
+        }
+        for n in ["GLSL.std.450", "OpenCL.std", "NonSemantic.Shader.DebugInfo.100"] {
+            out.push(Inst::new("ExtInstImport", None, Some(4000), vec![Arg::Str(n.to_string())]));
+        }
+        for (a, m) in [(0u32, 1u32), (2, 2), (5348, 3)] {
+            out.push(Inst::new("MemoryModel", None, None, vec![Arg::Enum("AddressingModel", a), Arg::Enum("MemoryModel", m)]));
+        }
+        out
+    })
+    .clone()
 }
 
 pub fn alphabet() -> Vec<TOp> {
@@ -197,6 +230,13 @@ fn build_s(h: &[TOp], scheme: usize) -> Built {
                 w.extend([op("TypeBool"), id]);
                 exp = Exp::Accept(vec![]);
                 defined.push(id);
+            }
+            TOp::Prelude(k) => {
+                let i = &preludes()[k];
+                let mut e = model::enc(i);
+                e[0] &= 0xFFFF;
+                w.extend(e);
+                exp = Exp::Accept(model::to_dr(i).map(|d| d.operands).unwrap_or_default());
             }
             TOp::Const(k, n) | TOp::SpecConst(k, n) => {
                 let Some(&t) = defined.get(k) else {
@@ -435,6 +475,49 @@ pub fn run(tier: Tier) -> Run {
         let e = xs::enumerate(&reduced, d_enum + 1, &f);
         run.add_all(e.viols.iter().map(|v| Viol { key: format!("{}:ids{}", v.key, scheme), what: format!("(id scheme {}) {}", scheme, v.what), replay: v.replay.clone() }));
         scheme_transitions += e.transitions;
+    }
+    // ---- every extension name the grammar mentions, every capability, imports and memory models in front of declarations
+    //      of unsupported and supported widths and their consumers: the width decision depends on the int / float
+    //      declarations only
+    {
+        let np = preludes().len();
+        let tails: Vec<Vec<TOp>> = {
+            let mut t = vec![];
+            for w in [24u32, 48, 7, 33] {
+                t.push(vec![TOp::TInt(w, 0), TOp::ConstLast(1)]);
+                t.push(vec![TOp::TInt(w, 1), TOp::ConstLast(2)]);
+                t.push(vec![TOp::TInt(w, 0), TOp::UndefLast, TOp::SwitchLast(1)]);
+                t.push(vec![TOp::TInt(w, 0), TOp::UndefLast, TOp::SwitchLast(2)]);
+            }
+            for w in [24u32, 48, 8, 128] {
+                t.push(vec![TOp::TFloat(w), TOp::ConstLast(1)]);
+                t.push(vec![TOp::TFloat(w), TOp::ConstLast(2)]);
+            }
+            t.push(vec![TOp::TInt(64, 0), TOp::ConstLast(2)]);
+            t.push(vec![TOp::TInt(16, 1), TOp::ConstLast(1)]);
+            t.push(vec![TOp::TFloat(64), TOp::ConstLast(2)]);
+            t
+        };
+        let res: Vec<Vec<Viol>> = (0..np)
+            .into_par_iter()
+            .map(|k| {
+                let mut out = vec![];
+                for t in &tails {
+                    let mut h = vec![TOp::Prelude(k)];
+                    h.extend(t.iter().cloned());
+                    for v in run_hist(&h).viols {
+                        if out.len() < 2 {
+                            out.push(Viol { key: format!("{}:after-{}", v.key, preludes()[k].name()), what: format!("(after {}) {}", preludes()[k].short(), v.what), replay: v.replay });
+                        }
+                    }
+                }
+                out
+            })
+            .collect();
+        run.outcome("prelude_histories", (np * tails.len()) as u64);
+        for v in res {
+            run.add_all(v);
+        }
     }
     // ---- long histories (U-scale): an early declaration, then N further tracked ids (distinct type declarations, or
     //      values), then a declaration that is the (N+2)-th tracked id and a literal consumer of it; and a consumer of
